@@ -72,6 +72,8 @@ class Analysis:
         else:
             st, mod, cls_ctx, self_term = where
         b = dict(st.loc)
+        if self_term is not None and "self" not in b:
+            b["self"] = self_term   # an event inside a module-level helper extracted from a method (attributed to that method)
         if extra:
             b.update(extra)
         return self.ev.eval_src(src, b, module=mod, cls_ctx=cls_ctx, self_term=self_term, heap=st.heap)
